@@ -159,10 +159,17 @@ type ConcatIterator struct {
 // NewConcatIterator creates a new concatenated iterator
 func NewConcatIterator(tbls []*table, opt *utils.Options) *ConcatIterator {
 	iters := make([]utils.Iterator, len(tbls))
+	// The per-table iterators are opened lazily. Pin every table now, so that a compaction
+	// which finishes while the iterator is alive cannot delete files it has yet to visit.
+	pinned := make([]*table, len(tbls))
+	copy(pinned, tbls)
+	for _, t := range pinned {
+		t.IncrRef()
+	}
 	return &ConcatIterator{
 		options: opt,
 		iters:   iters,
-		tables:  tbls,
+		tables:  pinned,
 		idx:     -1, // Not really necessary because s.it.Valid()=false, but good to have.
 	}
 }
@@ -259,7 +266,11 @@ func (s *ConcatIterator) Close() error {
 			return fmt.Errorf("ConcatIterator:%+v", err)
 		}
 	}
-	return nil
+	tables := s.tables
+	s.tables = nil
+	s.iters = nil
+	s.cur = nil
+	return decrRefs(tables)
 }
 
 // MergeIterator merges multiple iterators into a single ordered stream.
